@@ -356,7 +356,8 @@ pub fn parse_key(text: &str) -> Option<Key> {
     if t.is_empty() || t.contains('(') || t.contains(')') || t.contains(',') {
         return None;
     }
-    Some(Key::plain(t))
+    // a plain key names the field exactly as written
+    Some(Key::plain(text))
 }
 
 fn rval_from_yaml(v: &Y, in_list: bool) -> Option<RVal> {
